@@ -50,7 +50,7 @@ func coreC06(tier string) []RunSpec {
 			out = append(out, RunSpec{Profile: "core:semantic-invalid", Params: map[string]int{"sem": 1, "sk": sk, "k": k}})
 		}
 	}
-	for lmk := 0; lmk < 20; lmk++ {
+	for lmk := 0; lmk < c06NumLockMut; lmk++ {
 		for k := 0; k < 2; k++ {
 			out = append(out, RunSpec{Profile: "core:lock-secret-mutant", Params: map[string]int{"lsm": 1, "lmk": lmk, "k": k}})
 		}
@@ -693,6 +693,8 @@ func c06SemanticInvalid(rc *RunCtx, m *MW, snapshot func() string, i int) {
 	after(r2)
 }
 
+const c06NumLockMut = 24
+
 // c06LockSecretMutants: inputs whose secret is a NUT-10 spending condition with one element of its
 // inside garbled (tag keys and values, key lists, numbers, data, nesting), presented through swap
 // and melt - as a forged proof (the lock is looked at before the signature) and as a proof the
@@ -710,7 +712,7 @@ func c06LockSecretMutants(rc *RunCtx, m *MW, snapshot func() string, i int) {
 	htlc := T.Chance("lsm.htlc", 1, 3)
 	mk := rc.P("lmk", -1)
 	if mk < 0 {
-		mk = T.Choose("lsm.kind", 20)
+		mk = T.Choose("lsm.kind", c06NumLockMut)
 	}
 	genuine := T.Chance("lsm.genuine", 1, 2)
 	viaMelt := T.Chance("lsm.melt", 1, 3)
@@ -797,6 +799,19 @@ func c06LockSecretMutants(rc *RunCtx, m *MW, snapshot func() string, i int) {
 	case 19:
 		kind = "P2PKH"
 		desc = "unknown kind"
+	case 20:
+		body["data"] = "05" + randHex(32)
+		desc = "data is hex but not a curve point (bad prefix)"
+	case 21:
+		setTag(2, []any{"pubkeys", "02abcd", kr.PubHex(2)})
+		desc = "pubkeys entry is hex but too short for a key"
+	case 22:
+		setTag(3, []any{"locktime", "1"})
+		setTag(4, []any{"refund", "02" + strings.Repeat("00", 32)})
+		desc = "expired locktime, refund key is hex but not on the curve"
+	case 23:
+		body["data"] = strings.Repeat("ab", 40)
+		desc = "data is hex of the wrong length"
 	}
 	bj, _ := json.Marshal(body)
 	secret := fmt.Sprintf(`["%s",%s]`, kind, string(bj))
